@@ -227,6 +227,7 @@ class Analysis:
 def run(ctx):
     F = ctx.facts
     r27_3(ctx)
+    r27_4(ctx)
     ctx.rule('R27.1', 'every reporting call is dominated by the enable test of every optional severity / inconclusive '
                       'certainty it can carry (interprocedural path conditions, truth-table decision)')
     ctx.rule('R27.2', 'the option assignments under which a reporting call is reachable are upward closed')
@@ -460,3 +461,95 @@ def r27_3(ctx):
                 'enabled can report a different value and drop the finding the smaller option set produced' % (f['name'], sorted(set(hits)))),
                '%s:%s' % (f['file'], hits[0] if hits else f['line']))
     ctx.floor('R27.3 value-selecting functions', n, 6)
+
+
+def r27_4(ctx):
+    """R27.4  options gate, they are not search parameters: when the result of a severity / certainty test (directly or through a local bool)
+    is passed as an argument to a repo function that returns data, the callee (and whoever it hands the parameter on to, 3 levels) may use the
+    parameter only as a pure gate: as the whole condition of an `if` (possibly negated, possibly combined with other option tests or
+    constants).  A condition that combines the parameter with data (`!warning && call->warning`) and controls a continue / break / return /
+    assignment makes the *result of the search* depend on the option: enabling the option can replace an already reported finding by a
+    different one (CTU::FileInfo::findPath is such a function; its caller passes the loop variable of a strict-then-relaxed search, never
+    the option itself)."""
+    from .common.facts import walk, walk_parents, strip_all, call_args
+    F = ctx.facts
+    ctx.rule('R27.4', 'an option test passed to a data-returning function is used there only as a pure gate, never combined with data to steer a search')
+    OPT = ('Settings::severity', 'Settings::certainty')
+
+    def is_opt_expr(n, optlocals):
+        for y in walk(n):
+            if y.get('k') == 'CXXMemberCallExpr' and (y.get('fn') or '').endswith('isEnabled') and \
+                    any(z.get('k') == 'MemberExpr' and z.get('n') in OPT for z in walk(y)):
+                return True
+            if y.get('k') == 'DeclRefExpr' and y.get('di') in optlocals:
+                return True
+        return False
+
+    def selecting_uses(g, pdi, depth, seen):
+        """lines where parameter pdi of g is combined with data in a condition that steers control flow / data"""
+        key = (F.key(g), pdi)
+        if key in seen or depth < 0:
+            return []
+        seen.add(key)
+        b = F.body(g)
+        if b is None:
+            return []
+        out = []
+        body = b['body']
+        for x, parents in walk_parents(body):
+            if x.get('k') in ('IfStmt', 'WhileStmt', 'ForStmt', 'ConditionalOperator') :
+                c = x.get('cond') if x.get('k') != 'ConditionalOperator' else (x['c'][0] if x.get('c') else None)
+                if c is None or not any(y.get('k') == 'DeclRefExpr' and y.get('di') == pdi for y in walk(c)):
+                    continue
+                # other operands: anything that is not the parameter, a literal, or an option test
+                data = [y for y in walk(c) if (y.get('k') == 'DeclRefExpr' and y.get('di') != pdi and y.get('dk') in ('Var', 'ParmVar')) or
+                        (y.get('k') == 'MemberExpr' and y.get('dk') == 'Field' and y.get('n') not in OPT)]
+                if not data:
+                    continue
+                branches = [x.get('then'), x.get('else')] if x.get('k') == 'IfStmt' else ([x.get('body')] if x.get('k') != 'ConditionalOperator' else x['c'][1:])
+                steers = any(y.get('k') in ('ContinueStmt', 'BreakStmt', 'ReturnStmt') or
+                             (y.get('k') in ('BinaryOperator', 'CXXOperatorCallExpr', 'CompoundAssignOperator') and (y.get('op') or '') in ('=', '+=', '|='))
+                             for br in branches if br for y in walk(br)) or x.get('k') == 'ConditionalOperator'
+                if steers:
+                    out.append('%s:%s' % (g['file'], x['l']))
+        # handed on
+        for x in walk(body):
+            if x.get('k') in ('CallExpr', 'CXXMemberCallExpr') and x.get('fid'):
+                for i, a in enumerate(call_args(x)):
+                    a0 = strip_all(a)
+                    if a0.get('k') == 'DeclRefExpr' and a0.get('di') == pdi:
+                        for h in F.resolve(g, x['fid']):
+                            if h['file'].startswith('lib/') and i < len(h['params']):
+                                out += selecting_uses(h, h['params'][i]['di'], depth - 1, seen)
+        return out
+    n = 0
+    done = set()
+    for f in F.all_fns():
+        if not f['file'].startswith('lib/') or F.key(f) in done:
+            continue
+        done.add(F.key(f))
+        if not any(a['n'] in OPT for a in f['acc']):
+            continue
+        b = F.body(f)
+        if b is None:
+            continue
+        body = b['body']
+        optlocals = {v['di'] for v in walk(body) if v.get('k') == 'VarDecl' and v.get('init') is not None and 'bool' in (v.get('t') or '') and is_opt_expr(v['init'], ())}
+        for x in walk(body):
+            if x.get('k') in ('CallExpr', 'CXXMemberCallExpr') and x.get('fid') and not (x.get('fn') or '').endswith('isEnabled'):
+                for i, a in enumerate(call_args(x)):
+                    if not is_opt_expr(a, optlocals):
+                        continue
+                    for g in F.resolve(f, x['fid']):
+                        if not g['file'].startswith('lib/') or i >= len(g['params']) or (g.get('ret') or 'void') == 'void':
+                            continue
+                        if 'bool' not in g['params'][i]['t']:
+                            continue
+                        n += 1
+                        uses = selecting_uses(g, g['params'][i]['di'], 3, set())
+                        ctx.ob('R27.4', 'option-as-argument:%s->%s' % (f['name'], g['name']), not uses,
+                               ('%s passes an option test to parameter %s of %s, which uses it only as a pure gate' % (f['name'], g['params'][i]['n'], g['name'])) if not uses else
+                               ('%s passes the result of a severity / certainty test as parameter %s of %s (line %s); the callee combines it with data to steer its search (%s): which '
+                                'result is returned depends on the option, so enabling it can replace a finding that was already reported with the option off'
+                                % (f['name'], g['params'][i]['n'], g['name'], x['l'], ', '.join(sorted(set(uses))[:3]))), '%s:%s' % (f['file'], x['l']))
+    ctx.floor('R27.4 option tests passed to data-returning functions', n, 1)
